@@ -724,10 +724,16 @@ package lang
 //@   ensures[C08] stack-untouched: e.stackTop == old(e.stackTop)
 //@   ensures[C11] fault-latched: $faulted <==> err != nil
 
+// Name resolution (C08): the innermost frame on the chain from the current one outwards that binds the name.
+//@ spec func opaque lookupIn(f *stackFrame, name string) *Cell = f == nil ? nil : (has(f.locals, name) ? f.locals[name] : lookupIn(f.parent, name))
 //@ func Evaluator.getVariable [C01,C08,C11]
 //@   modifies valueHeap
 //@   requires evOK(e) && !$faulted
 //@   updates $faulted
+//@   reveal lookupIn
+//@   ensures[C08] innermost-enclosing-binding-wins: old(lookupIn(e.stackTop, name)) != nil ==> err == nil && result0 == old(lookupIn(e.stackTop, name))
+//@   ensures[C08] unbound-names-are-created-in-the-current-frame: old(lookupIn(e.stackTop, name)) == nil && err == nil ==> fresh(result0) && result0.Value.Tag == ValueUnknown && has(e.stackTop.locals, name) && e.stackTop.locals[name] == result0
+//@   loop 0 invariant[C08] rest-of-the-chain-decides: !$faulted && lookupIn(frame, name) == old(lookupIn(e.stackTop, name))
 //@   ensures[C01] result-or-error: err == nil ==> result0 != nil
 //@   ensures[C01] errkind: err == nil || isPlainErr(err)
 //@   ensures[C08] stack-untouched: e.stackTop == old(e.stackTop)
@@ -913,6 +919,7 @@ package lang
 //@ func Evaluator.setGlobal [C01,C02]
 //@   requires e != nil && e.stackTop != nil && cell != nil
 //@   updates nothing
+//@   ensures[C02] bound-in-the-root-frame: e.stackTop == old(e.stackTop)
 //@   loop 0 invariant walking: top != nil
 
 // break/continue/return are not consumed here: that a rule body cannot raise them is the parser's
@@ -939,6 +946,7 @@ package lang
 //@   after Evaluator.evalStatement: $mark = $alloc
 //@   assert[C03] previous-file-was-read-to-its-end: !$pendingFile @ encoding/json.NewDecoder
 //@   assert[C03] rules-run-on-complete-values-only: $lastDecode == nil @ Evaluator.evalPatternRules
+//@   assert[C02] file-variable-names-the-file-being-read: arg1 == "$file" && arg2 != nil && arg2.Value.Tag == ValueStr && *arg2.Value.Str == file.Name @ Evaluator.setGlobal
 //@   assert[C02] pattern-rules-see-the-selected-root: ev.root == rootCell && arg1 == ev.patternRules @ Evaluator.evalPatternRules
 //@   assert?[C02] begin-and-end-rules-see-a-fresh-null: rule.Kind != BeginFileRule && rule.Kind != EndFileRule ==> ev.ruleRoot != nil && ev.ruleRoot.Value.Tag == ValueNil && ev.ruleRoot.Value.ParentObj == nil && newerThan(ev.ruleRoot, $mark) && arg1 == rule.Body @ Evaluator.evalStatement
 //@   exit[C03] decoder-errors-name-the-file: isJsonErr(err) ==> $lastDecode != nil && $lastDecode != extvar("io.EOF")
